@@ -1,3 +1,5 @@
+import RsyncModel.MapFile
+import RsyncModel.PureTie
 import RsyncModel.Properties.C17
 import RsyncModel.Properties.C13
 import RsyncModel.Properties.C07
@@ -130,5 +132,28 @@ theorem readonly_is_error (mods : List Daemon.Module) (g ml : Opts.Str) (args : 
     (hm : Daemon.moduleOf (Daemon.handle mods g ml args) = some m) (hw : m.writable = false) :
     Daemon.isReceive (Daemon.handle mods g ml args) = false :=
   (C07.readonly_untouched mods g ml args m hm hw).2
+
+
+/-! ### Tie to the source (regenerated translation `Gen.Pure`) -/
+
+/-- **`SumHead.ReadFrom` as the source has it** (translated from /repo on every run, the four reads
+as parameters): for every four 32-bit values a peer can send it either rejects — and so does the
+model, with `badHead` — or accepts exactly the fields the model accepts; it never panics. -/
+theorem source_sumhead_validation (sh0 : Gen.Pure.SumHead) (r0 r1 r2 r3 : Int32) (rest : Wire.Bytes) :
+    match Gen.Pure.SumHeadReadFrom sh0 r0 r1 r2 r3 with
+    | .ok sh => sh = ⟨r0, r1, r2, r3⟩ ∧
+        Recv.readHead (Wire.encI32 r0 ++ (Wire.encI32 r1 ++ (Wire.encI32 r2 ++ (Wire.encI32 r3 ++ rest))))
+          = .ok (⟨r0.toInt.toNat, r1.toInt.toNat, r2.toInt.toNat, r3.toInt.toNat⟩, rest)
+    | .err => Recv.readHead (Wire.encI32 r0 ++ (Wire.encI32 r1 ++ (Wire.encI32 r2 ++ (Wire.encI32 r3 ++ rest))))
+          = .error .badHead
+    | .panic => False :=
+  PureTie.readFrom_tied sh0 r0 r1 r2 r3 rest
+
+/-- the sender's file window never panics and never fails on requests inside the file, whatever
+sequence of block lengths and offsets a peer's checksum header makes it ask for -/
+theorem source_window_no_panic (ms : Gen.Pure.mapStruct) (file : Wire.Bytes) (offset : Int) (l : Int32)
+    (inv : MapFile.Inv ms file) (hl : 0 < l.toInt) (h0 : 0 ≤ offset) (hin : offset + l.toInt ≤ (file.length : Int)) :
+    ∃ ms', Gen.Pure.ptr ms offset l file = .ok ((file.drop offset.toNat).take l.toInt.toNat, ms') ∧ MapFile.Inv ms' file :=
+  MapFile.ptr_correct ms file offset l inv hl h0 hin
 
 end C08
